@@ -281,7 +281,9 @@ class BaseParagraph(debcon.FieldMixin):
                 if key in known_names:
                     known_data[key] = value
                 else:
-                    extra_data[key] = value
+                    # to_dict() formats extra data values as continuation
+                    # lines: undo this to get back what is stored
+                    extra_data[key] = debcon.from_formatted_text(value)
 
         return cls(**known_data)
 
@@ -313,7 +315,12 @@ class BaseParagraph(debcon.FieldMixin):
 
     def dumps(self, **kwargs):
         text = []
-        for name, value in self.to_dict().items():
+        # extra data values are stored as found in the file, already formatted
+        # as continuation lines: they are dumped as-is (to_dict() formats them
+        # once more and dumping that would indent them further on every cycle)
+        items = self.to_dict(with_extra_data=False)
+        items.update(getattr(self, 'extra_data', {}))
+        for name, value in items.items():
             if value and value.strip():
                 name = name.replace('_', '-')
                 name = debcon.normalize_control_field_name(name)
